@@ -14,8 +14,9 @@ run_demo() {
     local name; name=$(basename "$rs" .rs)
     cargo test --offline --test "$name" > /tmp/confirm_demo.out 2>&1; local rc=$?
     rm -rf tests; return $rc
-  elif [ -x "$SD/demo/run.sh" ]; then
-    "$SD/demo/run.sh" "$WT" > /tmp/confirm_demo.out 2>&1; return $?
+  elif ls "$SD"/demo/*.sh > /dev/null 2>&1; then
+    local sh; sh=$(ls "$SD"/demo/run*.sh | head -1)
+    bash "$sh" "$WT" > /tmp/confirm_demo.out 2>&1; return $?
   else
     echo "no demo found"; return 99
   fi
